@@ -638,7 +638,10 @@ func genTarFsCase(r *Rng, big bool) tarCase {
 	for k := 0; k < ns; k++ {
 		p := fresh()
 		var target string
-		switch r.Intn(5) {
+		switch r.Intn(6) {
+		case 5:
+			// targets are stored and emitted as given, not cleaned
+			target = Pick(r, []string{"./", "x//", "d/../", "/a/./"}) + Pick(r, tarBases)
 		case 0:
 			target = "/nonexistent/" + Pick(r, tarBases)
 		case 1:
